@@ -79,3 +79,18 @@ Theorem C16_known_reachable_list : forall s, In s known_reachable <->
     In s ["1"; "2"; "6"; "8"; "10"; "11"; "12"; "15"; "16"; "17"; "18"; "19"; "todo"; "child_parents-unwrap"; "child_data-unwrap"; "field-ty-unwrap"; "sub_path-type-unwrap"]%string.
 Proof. intro s. symmetry. exact (reach_sites_are_known s). Qed.
 Print Assumptions C16_known_reachable_list.
+
+(* the descent terminates (Lemmas/Terminate.v): for a struct without parameterised #[parent] members whose child paths are non-empty
+   lists of non-empty names, struct_init_block never runs out of fuel - every callee of the member loop consumes at least the
+   member it was called for (so the loop's own fuel, one unit per member, suffices), each nesting level costs three units of the outer
+   fuel, and the number of levels is bounded by the length of the longest path string.  The model's `Oom "fuel"` outcome - the
+   image of a `while let Some(..) = members.peek()` loop that does not advance - does not occur on these inputs *)
+From O2o.Lemmas Require Import Terminate.
+
+Theorem C16_descent_terminates : forall s c, struct_wf s -> forall w, struct_init_block s c <> Oom w.
+Proof. exact struct_init_block_terminates. Qed.
+Print Assumptions C16_descent_terminates.
+
+Theorem C16_descent_terminates_example : struct_wf Flatten.f03a_struct.
+Proof. exact struct_wf_example. Qed.
+Print Assumptions C16_descent_terminates_example.
